@@ -28,8 +28,8 @@ from okdmr.dmrlib.etsi.layer2.elements.resynchronize_flag import ResynchronizeFl
 EXPLANATION = ("C07: all payload octets and both addresses are symbolic; one symbolic run per (rate, mode, length, preamble count) covers every payload content of that length. "
                "The receive path BPTC-repairs every burst; Hamming repair is summarised per call and the unused BPTC decode of rate-1 / rate-3/4 blocks is evaluated lazily.")
 BOUNDS = {"quick": "rates 1/2, 3/4, 1 x confirmed / unconfirmed x payload lengths around the 1-, 2- and 3-block boundaries (rate 3/4: 1 and 2 blocks) x preamble counts {0, 2}; colour code 1",
-          "thorough": "payload lengths 0..60 at rates 1/2 and 1; rate 3/4 unconfirmed up to 2 blocks, confirmed single block; preamble counts 0..4"}
-OUTSIDE = "rate 3/4 confirmed with two or more blocks (solver time-out at 120 s per obligation, measured); payload lengths beyond the bounds (the fragmentation arithmetic is the same per block; the header's 7-bit block count limits the length); colour codes other than 1 (the generator hard-wires 5 for the header burst); MBC / UDT"
+          "thorough": "payload lengths 0..60 at rates 1/2 and 1; rate 3/4 unconfirmed up to 2 blocks, confirmed: payloads of 0 and 1 octets; preamble counts 0..4; long transmissions (more than 127 bursts announced): rate 1/2 confirmed 1200 octets with 16 preambles, unconfirmed 1430 octets with 12 preambles"}
+OUTSIDE = "rate 3/4 confirmed with more than one symbolic payload octet (solver time-out on the CRC-9 of trellis-decoded data, measured for 2, 4, 6, 12 octets and for two blocks); payload lengths beyond the bounds (the fragmentation arithmetic is the same per block; the header's 7-bit block count limits the length); colour codes other than 1 (the generator hard-wires 5 for the header burst); MBC / UDT"
 ASSUMPTIONS = ["octets per block / last block as in ETSI TS 102 361-1 table 8.1 (22/18, 24/20, 10/6, 12/8, 16/12, 18/14), transcribed into this file",
                "CRC-32 reference as in C05; the last block carries it little-endian",
                "lazy evaluation of BPTC19696.deinterleave_data_bits in Transmission.process_packet (its result is unused for rate-1 and rate-3/4 blocks); per-call summaries of HammingCommon.check_and_correct"]
@@ -88,7 +88,10 @@ def h_tx(hx, rate, conf, L, k):
     for b in bursts:
         raw = b.as_bytes()
         hx.prove(len(raw) == 33, "%s: every burst serialises to 33 bytes" % tag)
-        rx = Burst.from_bytes(raw, BurstTypes.DataAndControl)
+        st1, rx = hx.guard(Burst.from_bytes, raw, BurstTypes.DataAndControl)
+        hx.prove(st1 == "ok", "%s: every generated burst parses (%s)" % (tag, rx if st1 == "exc" else ""))
+        if st1 != "ok":
+            return
         st2, res = hx.guard(term.process_incoming_burst, rx, 1)
         hx.prove(st2 == "ok", "%s: receiving does not fail (%s)" % (tag, res if st2 == "exc" else ""))
     kinds = [e[0] for e in rec.ev]
@@ -130,10 +133,11 @@ LONG = {"quick": [], "thorough": [("12", True, 1200, 16), ("12", False, 1430, 12
 def lengths(rate, conf, tier):
     per, last = TABLE[(rate, conf)]
     if rate == "34":
-        # the rate-3/4 receive path (trellis) is the expensive one: confirmed mode is bounded to single-block payloads (the two-block
-        # confirmed configuration did not finish within 12 minutes and is stated as outside the claim)
+        # the rate-3/4 receive path (trellis) is the expensive one.  Confirmed mode: the CRC-9 obligation over trellis-decoded symbolic octets
+        # times out (measured: 2, 4, 6, 12 symbolic octets: z3 time-out at 120 s per obligation / case budget); payloads of 0 and 1 octets
+        # (all-pad block, one symbolic octet) are decided, everything else in this mode is stated as outside the claim
         if conf:
-            return [0] if tier == "quick" else [0, 1, last]
+            return [0] if tier == "quick" else [0, 1]
         return [0, last + 1] if tier == "quick" else [0, 1, last, last + 1, last + per]
     if tier == "quick":
         return [0, last, last + 1, last + per, last + per + 1]
